@@ -544,8 +544,25 @@ def replay(ctx, data):
             print("channel row tables:", channel_rle_problems(b)[:3])
             import c03_extra
             print("layer channels (specification reading):", c03_extra.layer_channel_problems(b, r[1], r[3])[:3])
+        if str(inp.get("entry", "")).startswith("walkp"):
+            import c03_payload
+            pr = c03_payload.parse_deep(cc.pbatch([("walkp.deep", hx(b))])[0])
+            print("payload walkers (skeleton, then every payload at every nesting level):",
+                  pr[0], pr[1:4] if pr[0] == "ok" else pr[1:])
         rr = cc.read_doc(b)
         print("psd-tools reads it back:", rr[0], rr[1] if rr[0] == "err" else "")
+    elif str(inp.get("entry", "")) in ("walkp.block", "walkp.resource") and inp.get("bytes"):
+        # the payload the class wrote, standalone through the walker of its key / id
+        key = inp.get("key", "")
+        print("recorded payload of", inp.get("class"), "under", key, "- walker now:")
+        try:
+            import importlib
+            mod, nm = inp["class"].rsplit(".", 1)
+            K = getattr(importlib.import_module(mod), nm)
+            x = K.frombytes(unhx(inp["bytes"]), **(inp.get("kwargs") or {}))
+            print("  the library reads the recorded bytes back as", type(x).__name__, "and writes", len(x.tobytes()), "bytes")
+        except Exception as e:  # noqa
+            print("  the library does not read the recorded bytes back:", repr(e)[:160])
     elif inp.get("entry") in ("compress", "ChannelData.set_data") and "raw" in inp:
         # re-run the compression entry point on the recorded raw plane
         import c03_extra
